@@ -80,6 +80,7 @@ type xElem struct {
 	Uniform bool   // item: every level of its list definition has the same orderedness
 	Jumpy   bool   // item: belongs to a run of items that starts below depth 0 or deepens by more than one level
 	Table   *wpmodel.Table
+	Plain   bool // para, heading: carries no numbering, so nothing stands in front of it on its line
 }
 
 func norm(s string) string { return strings.Join(strings.Fields(s), " ") }
@@ -94,9 +95,9 @@ func expect(d wpmodel.Doc) []xElem {
 			if norm(b.Runs.String()) == "" {
 				continue // empty paragraphs are vertical white space (free)
 			}
-			out = append(out, xElem{Kind: "para", Raw: b.Runs.String()})
+			out = append(out, xElem{Kind: "para", Raw: b.Runs.String(), Plain: true})
 		case wpmodel.BHeading:
-			out = append(out, xElem{Kind: "heading", Raw: b.Runs.String(), Level: b.Level})
+			out = append(out, xElem{Kind: "heading", Raw: b.Runs.String(), Level: b.Level, Plain: !b.Numbered})
 		case wpmodel.BItem:
 			// maximal run of adjacent items of the same list
 			j := i
@@ -295,6 +296,17 @@ func checkText(c Case, exp []xElem, out string) error {
 		k := strings.Index(out[pos:], want)
 		if k < 0 {
 			return fmt.Errorf("element %d (%s): inline string %q not found in order after offset %d", i, e.Kind, want, pos)
+		}
+		if e.Plain && want != "" {
+			// a paragraph without numbering is no list item: nothing (no marker) stands in front of it on its line
+			start := pos + k
+			line := start - 1
+			for line >= 0 && out[line] != '\n' {
+				line--
+			}
+			if pre := strings.TrimSpace(out[line+1 : start]); pre != "" {
+				return fmt.Errorf("element %d: the %s %q is shown with %q in front of it on its line; it is not a list item", i, e.Kind, want, pre)
+			}
 		}
 		pos += k + len(want)
 	}
@@ -611,6 +623,7 @@ func genFormat(t *rapid.T, format string) Case {
 	o.NoEdgeWhite = rapid.IntRange(0, 3).Draw(t, "edge_white") < 3
 	o.NoLevelJumps = !rapid.Bool().Draw(t, "level_jumps")
 	o.NumberedHeadings = format == "docx"
+	o.NumOff = format == "docx"
 	wantWraps := rapid.IntRange(0, 2).Draw(t, "containers") == 2
 	switch format {
 	case "docx":
